@@ -169,7 +169,7 @@ Print Assumptions C01_block_hypotheses_satisfiable.
    holds afterwards — the chain of end values is exact only in copy mode or at the fixed point *)
 Theorem C01_quadrature_chain_inexact_refuted :
   let B := rz_run (it_check_ops 3) rz_B0 in
-  su (B 2 0) 0 tt = 6%Z /\ rz_uend (B 1 0) = 2%Z /\
+  su (B 2 0) 0 tt = rz_six /\ rz_uend (B 1 0) = rz_two /\
   svalid (B 1 0) = true /\ svalid (B 2 0) = true /\ ssent (B 1 0) = true.
 Proof. exact quadrature_chain_inexact_refuted. Qed.
 Print Assumptions C01_quadrature_chain_inexact_refuted.
